@@ -15,7 +15,7 @@ RULE = ("trees {group of 2, group of 3 with a hard link, two groups, two --isola
         "delete+recreate other bytes, replace by directory, by dangling symlink, by symlink to a fresh file, touch} x "
         "position: the external mutator is interleaved at EVERY event k (file-system read calls and clock reads) of the "
         "recorded `group -t 1` run from the first access to f until process exit (quick: one position per phase), plus "
-        "'between group and dedupe' (the pair tree also with both commands running in time zones UTC+9, UTC-8, UTC+5:30); then each dedupe op {remove, link, link --soft, dedupe, move} (quick: remove, link) "
+        "'between group and dedupe' (the pair tree also with both commands running in time zones UTC+9, UTC-8, UTC+5:30); then each dedupe op {remove, link, link --soft, dedupe, move} and {remove, link, move} x {-n 1, --rf-over 1, --priority newest, --no-lock, --keep-name <matches nothing>} (quick: remove, link, remove -n 1, link --priority newest) "
         "acts on the report that run produced. A state is one complete (group || mutator ; dedupe) execution, "
         "transitions are the events of the group history. Invariant: every content digest held by a regular file just "
         "before the dedupe run is still held by one afterwards (tree + move target); files outside the groups untouched.")
@@ -41,6 +41,11 @@ TREES["isolate"] = [{"p": "r1/a/f1", "k": "file", "c": ["base", 3000, 1]}, {"p":
 MUTATIONS = ["rewrite_same_len", "rewrite_other_len", "append", "truncate", "delete", "recreate_same", "recreate_other",
              "to_directory", "to_dangling_symlink", "to_symlink_fresh", "touch"]
 OPS = ["remove", "link", "softlink", "dedupe", "move"]
+# options of the dedupe command that must not switch the staleness guard off (op|option set)
+OPTSETS = {"": [], "n1": ["-n", "1"], "rfover1": ["--rf-over", "1"], "newest": ["--priority", "newest"],
+           "nolock": ["--no-lock"], "keepnone": ["--keep-name", "no-such-name*"]}
+OPS_T = OPS + ["%s|%s" % (o, k) for o in ("remove", "link", "move") for k in OPTSETS if k]
+OPS_Q = ["remove", "link", "remove|n1", "link|newest"]
 
 
 def prepare(tier):
@@ -147,10 +152,10 @@ def evaluate(case):
         if tier == "quick":
             positions = sorted(set([first + 1, last_access + 1, K - 1]))
             positions = [("pause", k) for k in positions if k < K] + [("between", None)]
-            ops = ["remove", "link"]
+            ops = OPS_Q
         else:
             positions = [("pause", k) for k in range(first + 1, K)] + [("between", None)]
-            ops = OPS
+            ops = OPS_T
         if case.get("only"):
             positions = [tuple(case["only"][0])]
             ops = [case["only"][1]]
@@ -183,7 +188,8 @@ def evaluate(case):
                 C.rmtree(target)
                 subprocess.run(["cp", "-a", snap, sc.tree], check=True)
                 before = C.inventory(sc.tree)
-                r = D.run_dedupe(sc, op, [], report, target=target, env_extra=tzenv)
+                opname, _, optk = op.partition("|")
+                r = D.run_dedupe(sc, opname, OPTSETS[optk], report, target=target, env_extra=tzenv)
                 after = C.inventory(sc.tree, target) if os.path.exists(target) else C.inventory(sc.tree)
                 states += 1
                 reached.append([case["tree"], case["f"], case["mutation"], kind, k, op, case.get("tz", "UTC")])
